@@ -165,3 +165,168 @@ Proof.
         -- apply (length_le_max_len sptrs (norm (VStruct d ps))). apply in_map. exact He.
         -- apply (length_le_max_len sdata (norm (VStruct d ps))). apply in_map. exact He.
 Qed.
+
+(* ------------------------------------------------------------------ all output words are 64-bit *)
+Definition w64 (x : Z) : Prop := 0 <= x < two64.
+
+Lemma struct_word_w64 o dn pn : 0 <= dn < two16 -> 0 <= pn < two16 -> w64 (struct_word o dn pn).
+Proof.
+  intros Hd Hp. unfold w64, struct_word, two64, two16, two30, two32, two48 in *.
+  assert (0 <= o mod 1073741824 < 1073741824) by (apply Z.mod_pos_bound; lia). lia.
+Qed.
+
+Lemma list_word_w64 o k n : 0 <= k < 8 -> 0 <= n < two29 -> w64 (list_word o k n).
+Proof.
+  intros Hk Hn. unfold w64, list_word, two64, two29, two30, two32, two35 in *.
+  assert (0 <= o mod 1073741824 < 1073741824) by (apply Z.mod_pos_bound; lia). lia.
+Qed.
+
+Lemma pack_word_bound B c : 1 < B -> digits_ok B c -> 0 <= pack_word B c < B ^ Z.of_nat (length c).
+Proof.
+  intros HB. induction c as [|d r IH]; intros H; [cbn; lia|].
+  inversion H as [|? ? Hd Hr]; subst. specialize (IH Hr). cbn [pack_word length].
+  rewrite Nat2Z.inj_succ, Z.pow_succ_r by lia. nia.
+Qed.
+
+Lemma pack_word_w64 B per c : 1 < B -> B ^ Z.of_nat per = two64 -> (length c <= per)%nat -> digits_ok B c ->
+  w64 (pack_word B c).
+Proof.
+  intros HB HP L H. pose proof (pack_word_bound B c HB H) as Hb. unfold w64.
+  assert (B ^ Z.of_nat (length c) <= B ^ Z.of_nat per) by (apply Z.pow_le_mono_r; lia). lia.
+Qed.
+
+Lemma pack_all_w64 B per : 1 < B -> B ^ Z.of_nat per = two64 -> forall fuel ds, digits_ok B ds ->
+  Forall w64 (pack_all fuel B per ds).
+Proof.
+  intros HB HP. induction fuel as [|f IH]; intros ds H; [constructor|].
+  destruct ds as [|d r] eqn:E; [constructor|]. rewrite <- E in *. 
+  replace (pack_all (S f) B per ds) with (pack_word B (firstn per ds) :: pack_all f B per (skipn per ds)) by (subst; reflexivity).
+  constructor.
+  - apply (pack_word_w64 B per); try assumption; [rewrite firstn_length; lia| apply digits_ok_firstn; assumption].
+  - apply IH. apply digits_ok_skipn. assumption.
+Qed.
+
+Definition cell_ok (c : cell) : Prop := match c with CW w => w64 w | CP _ => True end.
+
+Lemma enc_cells_w64 ev cs : Forall cell_ok cs ->
+  (forall v p c w body, In (CP v) cs -> ev v p c = COk (w, body) -> w64 w /\ Forall w64 body) ->
+  forall pos cur b k, enc_cells ev cs pos cur = COk (b, k) -> Forall w64 b /\ Forall w64 k.
+Proof.
+  induction 1 as [|c cs Hc Hcs IH]; intros Hev pos cur b k H.
+  - cbn in H. inversion H. split; constructor.
+  - destruct c as [w|v]; cbn [enc_cells] in H.
+    + destruct (enc_cells ev cs (pos + 1) cur) as [[b' k']| | |] eqn:E; try discriminate.
+      cbn in H. inversion H; subst. destruct (IH ltac:(intros; eapply Hev; [right|]; eassumption) _ _ _ _ E) as [I1 I2].
+      split; [constructor; assumption| assumption].
+    + destruct (ev v pos cur) as [[w0 body]| | |] eqn:E0; try discriminate. cbn [cbind fst snd] in H.
+      destruct (enc_cells ev cs (pos + 1) (cur + zlen body)) as [[b' k']| | |] eqn:E; try discriminate.
+      cbn in H. inversion H; subst.
+      destruct (Hev v pos cur w0 body (or_introl eq_refl) E0) as [W0 WB].
+      destruct (IH ltac:(intros; eapply Hev; [right|]; eassumption) _ _ _ _ E) as [I1 I2].
+      split; [constructor; assumption| apply Forall_app; split; assumption].
+Qed.
+
+Lemma forall_w64_of_forallb d : forallb (fun x => (0 <=? x) && (x <? two64)) d = true -> Forall w64 d.
+Proof. intros H. apply Forall_forall. intros z Hz. pose proof (forallb_In _ _ _ H Hz). unfold w64. lia. Qed.
+
+Lemma struct_cells_ok d ps : Forall w64 d -> Forall cell_ok (struct_cells d ps).
+Proof.
+  intros H. unfold struct_cells. apply Forall_app. split.
+  - apply Forall_forall. intros c Hc. apply in_map_iff in Hc. destruct Hc as (w & <- & Hw).
+    rewrite Forall_forall in H. apply H. assumption.
+  - apply Forall_forall. intros c Hc. apply in_map_iff in Hc. destruct Hc as (w & <- & Hw). exact I.
+Qed.
+
+Lemma kind_pow k : kind_base k ^ Z.of_nat (kind_per k) = two64.
+Proof. destruct k; reflexivity. Qed.
+
+Lemma ranged_In_ptr k es e p : ranged (VList k es) = true -> In e es -> In p (sptrs e) -> ranged p = true.
+Proof.
+  intros H He Hp. cbn [ranged] in H. pose proof (forallb_In _ _ _ H He) as R. destruct e as [| |d ps| |]; try destruct Hp.
+  apply andb_prop in R. destruct R as [_ R]. eapply forallb_In; eassumption.
+Qed.
+
+Theorem enc_w64 : forall f v pos cur w body, ranged v = true -> enc f v pos cur = COk (w, body) ->
+  w64 w /\ Forall w64 body.
+Proof.
+  induction f as [|f IH]; intros v pos cur w body Hr H; [discriminate|].
+  destruct v as [|c|d ps|k es|bs]; cbn [enc] in H; try discriminate.
+  - inversion H; subst. split; [unfold w64, two64; lia| constructor].
+  - (* struct *)
+    assert (Hzd : 0 <= zlen d) by (unfold zlen; lia). assert (Hzp : 0 <= zlen ps) by (unfold zlen; lia).
+    cbn [ranged] in Hr. apply andb_prop in Hr. destruct Hr as [Rd Rp].
+    destruct ((zlen d =? 0) && (zlen ps =? 0)).
+    + inversion H; subst. split; [apply struct_word_w64; unfold two16; lia| constructor].
+    + destruct ((zlen d >=? two16) || (zlen ps >=? two16) || (cur - pos - 1 >=? two29)) eqn:E1; [discriminate|].
+      destruct (enc_cells (enc f) (struct_cells d ps) cur (cur + zlen d + zlen ps)) as [[b k]| | |] eqn:E; try discriminate.
+      cbn in H. inversion H; subst. split; [apply struct_word_w64; lia|].
+      destruct (enc_cells_w64 (enc f) (struct_cells d ps)
+                  (struct_cells_ok d ps (forall_w64_of_forallb d Rd))
+                  ltac:(intros v p c w0 body0 Hin He; apply (IH v p c w0 body0); [|exact He];
+                        apply in_struct_cells in Hin; eapply forallb_In; eassumption) _ _ _ _ E) as [I1 I2].
+      apply Forall_app. split; assumption.
+  - (* lists *)
+    assert (Hz : 0 <= zlen es) by (unfold zlen; lia).
+    destruct ((zlen es >=? two29) || (cur - pos - 1 >=? two29)) eqn:E1; [discriminate|].
+    assert (Hn : 0 <= zlen es < two29) by lia.
+    assert (PK : forall K, (K = LB1 \/ K = LB2 \/ K = LB4 \/ K = LB8) -> k = K ->
+                 COk (list_word (cur - pos - 1) (kind_code K) (zlen es),
+                      pack (kind_base K) (kind_per K) (map (fun e => hd_word (sdata e)) es)) = COk (w, body) ->
+                 w64 w /\ Forall w64 body).
+    { intros K HK -> HH. inversion HH; subst. split; [apply list_word_w64; [destruct HK as [->|[->|[->| ->]]]; cbn; lia| assumption]|].
+      unfold pack. apply pack_all_w64; [destruct HK as [->|[->|[->| ->]]]; cbn; lia| apply kind_pow|].
+      apply Forall_forall. intros z Hz'. apply in_map_iff in Hz'. destruct Hz' as (e & <- & He).
+      cbn [ranged] in Hr. pose proof (forallb_In _ _ _ Hr He) as R.
+      assert (KB : 0 < kind_base K) by (destruct HK as [->|[->|[->| ->]]]; cbn; lia).
+      destruct e as [| |d0 ps0| |]; cbn [sdata hd_word]; try lia.
+      apply andb_prop in R. destruct R as [R _]. destruct d0 as [|x0 r0]; cbn [hd_word]; [lia|].
+      cbn [forallb] in R. apply andb_prop in R. destruct R as [R _].
+      destruct HK as [->|[->|[->| ->]]]; cbn in *; lia. }
+    destruct k.
+    + inversion H; subst. split; [apply list_word_w64; [lia|assumption]| constructor].
+    + apply (PK LB1); auto.
+    + apply (PK LB2); auto.
+    + apply (PK LB4); auto.
+    + apply (PK LB8); auto.
+    + (* pointer list *)
+      destruct (enc_cells (enc f) (map (fun e => CP (hd_ptr (sptrs e))) es) cur (cur + zlen es)) as [[b k]| | |] eqn:E;
+        try discriminate.
+      cbn in H. inversion H; subst. split; [apply list_word_w64; [lia|assumption]|].
+      assert (CO : Forall cell_ok (map (fun e => CP (hd_ptr (sptrs e))) es)).
+      { apply Forall_forall. intros c Hc. apply in_map_iff in Hc. destruct Hc as (e & <- & _). exact I. }
+      assert (CV : forall v p c w0 body0, In (CP v) (map (fun e => CP (hd_ptr (sptrs e))) es) ->
+                   enc f v p c = COk (w0, body0) -> w64 w0 /\ Forall w64 body0).
+      { intros v p c w0 body0 Hin He. apply (IH v p c w0 body0); [|exact He].
+        apply in_map_iff in Hin. destruct Hin as (e & Hv & Hin). inversion Hv; subst.
+        destruct (sptrs e) as [|p0 r0] eqn:Es; [reflexivity|].
+        apply (ranged_In_ptr LPtr es e p0 Hr Hin). rewrite Es. left. reflexivity. }
+      destruct (enc_cells_w64 (enc f) _ CO CV _ _ _ _ E) as [I1 I2].
+      apply Forall_app. split; assumption.
+    + (* struct list *)
+      set (dn := Z.of_nat (max_len sdata es)) in *. set (pn := Z.of_nat (max_len sptrs es)) in *.
+      destruct ((dn >=? two16) || (pn >=? two16) || (zlen es * (dn + pn) >=? two29)) eqn:E2; [discriminate|].
+      assert (HW : 0 <= zlen es * (dn + pn) < two29) by nia.
+      match type of H with cbind (enc_cells _ ?cs _ _) _ = _ =>
+        destruct (enc_cells (enc f) cs cur (cur + 1 + zlen es * (dn + pn))) as [[b k]| | |] eqn:E; try discriminate;
+        cbn in H; inversion H; subst; split; [apply list_word_w64; [lia|assumption]|];
+        assert (CO : Forall cell_ok cs);
+        [| assert (CV : forall v p c w0 body0, In (CP v) cs -> enc f v p c = COk (w0, body0) -> w64 w0 /\ Forall w64 body0);
+           [| destruct (enc_cells_w64 (enc f) cs CO CV _ _ _ _ E) as [I1 I2]; apply Forall_app; split; assumption]]
+      end.
+      * constructor; [cbn; apply struct_word_w64; lia|].
+        apply Forall_forall. intros c Hc. apply in_flat_map in Hc. destruct Hc as (e & He & Hc).
+        revert c Hc. apply Forall_forall. apply struct_cells_ok. unfold pad0. apply Forall_app. split.
+        -- cbn [ranged] in Hr. pose proof (forallb_In _ _ _ Hr He) as R. destruct e as [| |d0 ps0| |]; try constructor.
+           apply andb_prop in R. destruct R as [R _]. apply forall_w64_of_forallb. exact R.
+        -- apply Forall_forall. intros z Hz'. apply repeat_spec in Hz'. subst. unfold w64, two64. lia.
+      * intros v p c w0 body0 Hin He. apply (IH v p c w0 body0); [|exact He].
+        destruct Hin as [Hin|Hin]; [discriminate|]. apply in_flat_map in Hin. destruct Hin as (e & He1 & Hin).
+        apply in_struct_cells in Hin. unfold padN in Hin. apply in_app_or in Hin. destruct Hin as [Hin|Hin].
+        -- eapply ranged_In_ptr; eassumption.
+        -- apply repeat_spec in Hin. subst. reflexivity.
+  - (* bits *)
+    destruct ((zlen bs >=? two29) || (cur - pos - 1 >=? two29)) eqn:E1; [discriminate|].
+    assert (Hz : 0 <= zlen bs) by (unfold zlen; lia).
+    inversion H; subst. split; [apply list_word_w64; lia|].
+    unfold pack. apply (pack_all_w64 2 64); [lia| reflexivity| apply bits_digits].
+Qed.
